@@ -25,7 +25,7 @@ def run(ck):
     d = vlib.run_driver(drv, [ck.tier, ck.seed, t])
     if d["rc"] != 0:
         raise vlib.InfraError("driver failed rc=%s %s" % (d["rc"], d["err"][-1500:]))
-    ck.trace("round-trip", "Trace_Hier", "Trace.cfg", t, nchunks=48,
+    ck.trace("round-trip", "Trace_Hier", "Trace.cfg", t, nchunks=16,
              what="latLngToCell(cellToLatLng(h)) = h for every cell of r<=%d (per-base-cell counts = closed form), pentagon disks, "
                   "every cell along the 30 icosahedron edges (dense walk, complete up to r=%d) and their neighbours, random cells, "
                   "r<=15" % ((3, 6) if q else (5, 8)))
